@@ -9,7 +9,7 @@ dump op `D`.
 
 `cache` lines step the cache primitives of the Model directly. -/
 import BV.Common.Hex
-import BV.C03.Model
+import BV.C03.Valid
 namespace BV.C03.Driver
 open BV.Hex BV.C03 BV.C03.Spec
 
@@ -83,27 +83,6 @@ def insertOp (o : OutPoint) : List OutPoint → List OutPoint
 def blockOutpoints (b : Block) : List OutPoint :=
   createdOutpoints b ++ (b.txs.map (·.ins)).flatten
 
-def hasDupIns (b : Block) : Bool := b.txs.any (fun t => t.ins.eraseDups.length != t.ins.length)
-
-/-! ### executable validity (what `checkConnectBlock` rejects in generated histories) -/
-
-def insOk (h maturity : Nat) : UtxoSet → List OutPoint → Bool
-  | _, [] => true
-  | u, o :: os =>
-    match u o with
-    | none => false
-    | some e => (!e.coinbase || e.height + maturity ≤ h) && insOk h maturity (spend u o) os
-
-def txsOk (h maturity : Nat) : UtxoSet → List Tx → Bool
-  | _, [] => true
-  | u, t :: ts => !t.ins.isEmpty && !t.outs.isEmpty && insOk h maturity u t.ins && txsOk h maturity (applyTx h false u t) ts
-
-def bip30Ok (bip30 : Bool) (u : UtxoSet) (b : Block) : Bool :=
-  !bip30 || (createdOutpoints b).all (fun o => (u o).isNone)
-
-def blockOk (bip30 : Bool) (maturity : Nat) (u : UtxoSet) (h : Nat) (b : Block) : Bool :=
-  !hasDupIns b && bip30Ok bip30 u b && txsOk h maturity (applyTx h true u b.cb) b.txs
-
 /-! ### chain lines -/
 
 structure Node where
@@ -169,7 +148,7 @@ def Sim.processBlock (s : Sim) (b : Block) (parent : Nat) : Sim :=
       | none =>
         -- what a rejected block leaves in the cache: nothing when the sanity checks fail, the
         -- BIP30 scan when that fails, the scan and the input loads when an input check fails
-        let fs := if hasDupIns b then []
+        let fs := if hasDupIns b || !idsDistinct b then []
           else if !bip30Ok (!s.cfg.bip34) (utxoOf s.chain) b then createdOutpoints b
           else validationFetches (!s.cfg.bip34) b
         (fs.foldl (fun s o => s.modelStep (.fetch o)) s).emit s!"rej:{s.tip}"
